@@ -67,7 +67,8 @@ type FS struct {
 	// NoTmpfile makes the O_TMPFILE probe of the linux writer fail, selecting the generic writer.
 	NoTmpfile bool
 	// LockWaits counts lock acquisition retries (contention observed).
-	LockWaits int
+	LockWaits   int
+	unlockEpoch int
 }
 
 var (
@@ -332,10 +333,32 @@ func Lock(try func() bool, lock func(), site string) {
 	for !try() {
 		f.mu.Lock()
 		f.LockWaits++
+		ep := f.unlockEpoch
 		f.mu.Unlock()
-		time.Sleep(time.Millisecond)
+		if f.K.Passing() {
+			// setup / teardown / exclusive sections: poll on the simulated clock
+			time.Sleep(time.Millisecond)
+			continue
+		}
+		// park as a ticket; the scheduler offers it again only after some unlock happened
+		// (the epoch is part of the key), so lock hand-off order is a scheduler choice
+		f.K.Gate(fmt.Sprintf("lock:%s@%d", site, ep))
 	}
 }
+
+// Unlock replaces X.Unlock() in the writers: it counts unlock events so that the scheduler
+// knows when a goroutine waiting for a mutex may make progress.
+func Unlock(unlock func()) {
+	unlock()
+	if f := cur(); f != nil {
+		f.mu.Lock()
+		f.unlockEpoch++
+		f.mu.Unlock()
+	}
+}
+
+// UnlockEpoch returns the number of unlock events so far.
+func (f *FS) UnlockEpoch() int { f.mu.Lock(); defer f.mu.Unlock(); return f.unlockEpoch }
 
 // Ordered replaces `range m` over a map in code whose effects depend on the iteration
 // order: keys are visited in a deterministic order (sorted by their string form).
